@@ -119,6 +119,22 @@ def _readline_mock(src):
     return readline
 
 
+def _suspend(frame, value):
+    """Tell the frame, if it cares, that the generator yields value."""
+    suspend = getattr(frame, "suspend", None)
+    if suspend is not None:
+        suspend()
+    return value
+
+
+def _resume(frame, value):
+    """Tell the frame, if it cares, that the generator was sent value."""
+    resume = getattr(frame, "resume", None)
+    if resume is not None:
+        resume()
+    return value
+
+
 def _gensym():
     """Generate a fresh symbol."""
     return f"_ptera__{next(_IDX)}"
@@ -926,11 +942,23 @@ class PteraTransformer(NodeTransformer):
             self.visit(node.value or ast.Constant(value=None)),
             True,
         )
+        # The call stops running at the yield: its handlers must not apply
+        # to whatever code runs until it is resumed
+        suspended = ast.Call(
+            func=self._get("suspend"),
+            args=[self._get("frame"), new_value],
+            keywords=[],
+        )
+        resumed = ast.Call(
+            func=self._get("resume"),
+            args=[self._get("frame"), ast.Yield(value=suspended)],
+            keywords=[],
+        )
         new_yield = self._interact(
             "#receive",
             None,
             self._get("enter_tag"),
-            ast.Yield(value=new_value),
+            resumed,
             True,
         )
         return ast.copy_location(new_yield, node)
@@ -1154,6 +1182,8 @@ def transform(fn, proceed, to_instrument=True, set_conformer=True):
         ),
         "ABSENT": ("__ptera_ABSENT", ABSENT),
         "Key": ("__ptera_Key", Key),
+        "suspend": ("__ptera_suspend", _suspend),
+        "resume": ("__ptera_resume", _resume),
         "get_tags": ("__ptera_get_tags", get_tags),
         "self": (fnsym, None),
         "frame": ("__ptera_frame", None),
